@@ -166,7 +166,7 @@ def fifo_bench(name, with_bypass=False, nwords=4, data_width=8, port_dw=8, pre=2
 CONFIGS = {
     "core_4words_dma2_bit0": (dict(core_only=2, bit=0), 14, 20, "qt"),
     "core_2words_dma2_bit5": (dict(core_only=2, nwords=2, bit=5), 14, 20, "qt"),
-    "bypass_2words_dma2_bit0": (dict(with_bypass=True, nwords=2, dma=2, bit=0), 16, 24, "qt"),
+    "bypass_2words_dma2_bit0": (dict(with_bypass=True, nwords=2, dma=2, bit=0), 14, 24, "qt"),
     "nobypass_4words_bit0": (dict(with_bypass=False, bit=0), 0, 18, "t"),
     "bypass_4words_bit0": (dict(with_bypass=True, bit=0), 0, 18, "t"),
     "bypass_4words_bit7": (dict(with_bypass=True, bit=7), 0, 18, "t"),
@@ -179,12 +179,14 @@ def run(ctx):
     ctx.assume("producer holds valid/data until accepted; consumer ready free; one marked word, watched bit 1 only in that word")
     ctx.assume("memory: write and read port served in global acceptance order by one in-order stub (<=3 queued, latency >= 2, "
                "one command accepted per cycle); DRAM region 2-4 words; data width ratio 1; pre/post FIFO depth 2")
-    ctx.assume("internal DMA FIFOs keep their fixed depth 16")
+    ctx.assume("full LiteDRAMFIFO benches keep the internal DMA FIFO depth 16 except '*_dma2_*', where the inner _LiteDRAMFIFO is built "
+               "with writer/reader_fifo_depth=2 through its own keyword arguments so that a DRAM round trip and the return to bypass "
+               "mode fit in the window")
     for n, (kw, kq, kt, tiers) in CONFIGS.items():
         if ctx.only and not ctx.only.search(n):
             continue
         if ctx.tier == "quick" and "q" in tiers:
-            ctx.add(n, kq, timeout=1200, cover_required=False, min_K=13, chunk=1)
+            ctx.add(n, kq, timeout=1200, cover_required=False, min_K=min(13, kq - 2), chunk=1)
         elif ctx.tier == "thorough":
             ctx.add(n, kt, timeout=3000, cover_required=False, min_K=min(kq or 12, 12), chunk=1)
     ctx.run()
